@@ -9,16 +9,19 @@ import numpy as _np
 from pyvc.runner import group, REPO
 from pyvc import symnp as snp, terms as tm
 from pyvc.sym import Sym, realconst
-from .common import det3, And, Or, Not, Implies, Iff
+from .common import det3, dot3, And, Or, Not, Implies, Iff
 
 LEVEL = 'other'
 EXPLANATION = ("The four insertion routines are executed on a 3-atom system whose positions and extra per-atom properties are SYMBOLIC (real Atoms/System/point code re-instantiated "
                "from source): for every atom index (also negative) the result has the documented atom count, every other atom's row in every property equals its input row in the "
                "original order, old_id is that index map (and composes over successive insertions), the defect atom(s) come last with the requested position/type/property values, "
-               "and the input system's arrays are unchanged and unshared. Site selection BY POSITION goes through np.where on tolerance tests of periodic distances (shape-changing, "
-               "outside the modelled fragment): those clauses, the refusals and short insertion sequences are a labelled bounded contract check against a record-per-atom model.")
+               "and the input system's arrays are unchanged and unshared. Site selection BY POSITION is proved over symbolic periodic separations (System.dvect by its C02 contract, "
+               "symbolic tolerance, np.where on the tolerance test resolved by path forking): each routine acts on atom k exactly when k is the unique atom within the tolerance, with "
+               "the same result as addressing k by index, refuses otherwise, and an interstitial is inserted exactly when no atom is within the tolerance. That the separations are "
+               "the true periodic distances (through images), the refusals on real crystals and short insertion sequences are a labelled bounded contract check against a "
+               "record-per-atom model.")
 ASSUMPTIONS = ["atom count 3 in the symbolic groups (index arithmetic is concrete per enumerated index; values symbolic)", "System.dvect enters the interstitial proof through a stub returning 'no atom near' (C02 contract); the occupancy test itself is in the bounded group"]
-UNCOVERED = ["selection by position for systems outside the bounded family"]
+UNCOVERED = ["systems with more than 3 atoms in the symbolic groups (per-atom code is uniform)", "composition of selection with the real periodic distance kernel outside the bounded family (the kernel itself is C02)"]
 
 PTF = 'atomman/defect/point.py'
 SYSF = 'atomman/core/System.py'
@@ -375,3 +378,98 @@ def model_apply(recs, t, kw, box):
     elif t == 'i':
         recs.append(dict(pos=tuple(np.array(kw['pos']).dot(box.vects) + box.origin), atype=kw.get('atype', 1), q=0.0, old=nextid))
     return recs
+
+
+# ----------------------------------------------------------------------------
+# selection of the site BY POSITION, proved over symbolic periodic separations (callee contract: System.dvect, C02); np.where on the tolerance test is resolved by path forking
+
+class _ForkWhere(object):
+    """the facade with np.where(cond) on a symbolic boolean vector decided element by element (each decision forks the path), so that the result has a concrete shape"""
+    def __getattr__(self, k):
+        return getattr(snp, k)
+
+    def where(self, cond, *args):
+        if args:
+            return snp.where(cond, *args)
+        c = snp.asarray(cond)
+        mask = _np.array([bool(x) for x in c.ravel()], dtype=bool).reshape(c.shape)
+        return _np.where(mask)
+
+
+def _position_group(kind):
+    @group('select_by_position[%s]' % kind, files=[PTF, SYSF], functions=['defect.%s' % kind],
+           clause='%s with the site given BY POSITION, for symbolic periodic separations d_k between the requested position and every atom (contract of System.dvect, C02) and a symbolic '
+                  'tolerance: %s' % (kind, 'the insertion succeeds exactly when no atom lies within the tolerance of the position, otherwise it is refused' if kind == 'interstitial' else
+                                     'the routine acts on atom k exactly when |d_k| <= tolerance and every other atom is farther away; it refuses when no atom or more than one atom qualifies; the '
+                                     'result equals the result of addressing that atom by index (Cartesian and box-relative positions)'),
+           replay=_replay, timeout_ms=30000)
+    def h_(E, L):
+        pt = L.load(PTF)
+        D = E.reals('D', (3, 3))
+        atol = E.real('atol')
+        E.assume(atol > 0)
+        x = E.reals('xq', (3,))
+        E.canary('select_by_position.canary[%s]' % kind, D[0, 0] == atol)
+        for use_scale in (False, True):
+            system, vals = sym_system(E, L)
+            asked = []
+
+            def dvect(p0, p1, system=system, asked=asked):
+                asked.append((snp.asarray(p0).copy(), snp.asarray(p1).copy()))
+                return D.copy()
+            system.dvect = dvect
+            real_np = pt.np
+            pt.np = _ForkWhere()
+            kw = dict(atype=3 - vals['atype'][0]) if kind == 'substitutional' else (dict(db_vect=[0.1, 0.0, 0.2]) if kind == 'dumbbell' else (dict(atype=2) if kind == 'interstitial' else {}))
+            refused = None
+            try:
+                try:
+                    out = getattr(pt, kind)(system, pos=x, scale=use_scale, atol=atol, **kw)
+                except ValueError as e:
+                    refused = str(e)
+                    out = None
+            finally:
+                pt.np = real_np
+            tag = 'select_by_position[%s,scale=%s]' % (kind, use_scale)
+            dist2 = [dot3(D[k], D[k]) for k in range(3)]
+            near = [d2 <= atol * atol for d2 in dist2]
+            V = _np.asarray(system.box.vects, dtype=float)
+            o = _np.asarray(system.box.origin, dtype=float)
+            # the separations were asked from the requested (Cartesian) position to all atoms
+            E.prove(tag + '.one_distance_query', len(asked) == 1)
+            for j in range(3):
+                want = (x[0] * realconst(V[0, j]) + x[1] * realconst(V[1, j]) + x[2] * realconst(V[2, j]) + realconst(o[j])) if use_scale else x[j]
+                E.prove(tag + '.query_position[%d]' % j, asked[0][0][j] == want)
+            E.prove_eq(tag + '.query_atoms', asked[0][1], vals['pos'])
+            if kind == 'interstitial':
+                if out is None:
+                    E.prove(tag + '.refused_only_if_occupied', Or(*near))
+                else:
+                    E.prove(tag + '.inserted_only_if_free', And(*[Not(c) for c in near]))
+                    E.prove(tag + '.inserted', out.natoms == 4)
+                continue
+            if out is None:
+                # refused: not exactly one atom within the tolerance
+                exactly_one = Or(*[And(near[k], *[Not(near[j]) for j in range(3) if j != k]) for k in range(3)])
+                # (substitutional also refuses when the unique atom already has the requested type: only atom 0's complement type is requested, so that refusal needs atom != 0 ...)
+                if kind == 'substitutional' and 'same' in (refused or '').lower() or (kind == 'substitutional' and 'atype' in (refused or '')):
+                    E.prove(tag + '.refused_same_type_only_for_unique_atom_of_that_type', Or(*[And(near[k], *[Not(near[j]) for j in range(3) if j != k]) for k in range(3) if vals['atype'][k] == kw['atype']]))
+                else:
+                    E.prove(tag + '.refused_only_without_unique_atom', Not(exactly_one))
+                continue
+            # acted: identify the atom from old_id
+            oid = [int(v) for v in out.atoms.view['old_id']]
+            if kind == 'vacancy':
+                k = [q for q in range(3) if q not in oid][0]
+            else:
+                k = oid[2]
+            E.prove(tag + '.acted_on_the_unique_atom_within_tolerance', And(near[k], *[Not(near[j]) for j in range(3) if j != k]))
+            ref = getattr(pt, kind)(sym_system(E, L)[0], ptd_id=k, **(dict(kw, scale=use_scale) if kind == 'dumbbell' else kw))
+            E.prove(tag + '.same_as_by_index', out.natoms == ref.natoms and oid == [int(v) for v in ref.atoms.view['old_id']]
+                    and [int(v) for v in out.atoms.view['atype']] == [int(v) for v in ref.atoms.view['atype']])
+            E.prove_eq(tag + '.same_positions_as_by_index', out.atoms.view['pos'], ref.atoms.view['pos'])
+    return h_
+
+
+for _k in ('vacancy', 'substitutional', 'dumbbell', 'interstitial'):
+    _position_group(_k)
